@@ -101,3 +101,25 @@ def expected_values(case, block_idx):
     if getattr(case, 'with_type', False):
         base += ('[u8;%d]' % (int(b.tag[1:]) + 1),)
     return base
+
+
+def check_genimpls(invocations):
+    """the helper impls the macro generates (hook op genimpls) against the Coq model Gen.gen_render
+    (the user's block with the helper path, the row, forward-substituted wildcard projections and
+    inherent self-type arguments): returns (compared, violations)"""
+    exe_hook = cm.build_hook()
+    exe_model = cm.build_model()
+    reqs = ['genimpls\t' + inv.replace('\n', ' ') for inv in invocations]
+    resp = cm.run_hook(reqs, exe_hook)
+    mreq, idx = [], []
+    for i, r in enumerate(resp):
+        if r.startswith('(Blocks'):
+            mreq.append('genimpls\t' + r.split('\t')[0]); idx.append(i)
+    mresp = cm.run_model(mreq, exe_model) if mreq else []
+    out = []
+    for i, m in zip(idx, mresp):
+        e = resp[i].split('\t')[2]
+        if m != e:
+            out.append(dict(kind='correspondence', request=invocations[i], impl=e[:4000], model=m[:4000],
+                            oracle='corr:hook/genimpls: the helper impls the macro generates and the Coq model (Gen.gen_helper_impls) disagree'))
+    return len(idx), out
